@@ -240,6 +240,19 @@ def oracle_C06(cmds, impl, model, stats: Stats):
                                  f"{name}: {n} rows, declared [{mn},{m['max']}]; tree {m['tree_text']}"))
         if m["ji"] == "T" and rows != [{}]:
             out.append(Violation("C06", "join-identity-flag-wrong", f"{name}: rows {rows_text}; tree {m['tree_text']}"))
+        # the flags must agree with the REAL content (direct evaluation), so that the short-cuts keyed
+        # on them cannot change a result
+        sem = sem_line_for(ctx, k, name)
+        if sem is not None and field(sem, "kd") == "T" and c[0] == "exec" and field(model[k], "det") != "F":
+            drows = parse_rows(field(sem, "rows"))
+            dn = len(drows)
+            if dn < mn or (mx is not None and dn > mx):
+                out.append(Violation("C06", "real-row-count-outside-declared-bounds",
+                                     f"{name}: direct evaluation gives {dn} rows, declared [{mn},{m['max']}]; "
+                                     f"tree {m['tree_text']}"))
+            if m["ji"] == "T" and drows != [{}]:
+                out.append(Violation("C06", "join-identity-flag-disagrees-with-content",
+                                     f"{name}: direct evaluation gives {field(sem, 'rows')}; tree {m['tree_text']}"))
     # join elision must keep the predicate: compared through `sem` by C02/C01 oracles
     return out
 
@@ -306,6 +319,10 @@ def oracle_C04(cmds, impl, model, stats: Stats):
             if not il.startswith("ok a="):
                 continue
             kd = field(ml, "kd")
+            if kd is None:
+                # the model refused to commute here (the two sides disagree): key-determinedness only
+                # matters when a deduplication is involved
+                kd = "F" if "dedup" in (c[1][0], c[2][0]) else "T"
             a, b, wf = field(il, "a"), field(il, "b"), field(il, "wf")
             pair = f"{c[1][0]}>{c[2][0]}"
             if wf != "T":
